@@ -107,10 +107,44 @@ func CheckPromotion(pre, post *State, ns, name string) (sig, msg string, changed
 
 // MonC05 is the transition monitor for BFS scenarios.
 func MonC05(c *MonCtx) {
+	// memory: replica sets (name and creation instant) that have been marked Canary-Failed at some point of this history,
+	// including by a command that landed in the middle of a reconcile and whose write may not have survived it
+	failedKey := func(r *v1.ExtendedDaemonSetReplicaSet) string {
+		return fmt.Sprintf("failed:%s/%s@%d", r.Namespace, r.Name, r.CreationTimestamp.Unix())
+	}
+	mark := func(r *v1.ExtendedDaemonSetReplicaSet) {
+		if c.Out.Next.Mem == nil {
+			c.Out.Next.Mem = map[string]string{}
+		}
+		c.Out.Next.Mem[failedKey(r)] = "1"
+	}
+	for _, r := range c.Out.Next.ERSs() {
+		if ERSCondTrue(r, v1.ConditionTypeCanaryFailed) {
+			mark(r)
+		}
+	}
+	if strings.HasPrefix(c.Out.Ev.B, "mid:canary-fail:") && c.Out.MidRan && c.Out.CmdErr == nil {
+		ens, ename := split(strings.SplitN(c.Out.Ev.B, ":", 3)[2])
+		if e0 := c.Pre.EDS(ens, ename); e0 != nil && e0.Status.Canary != nil {
+			if r := c.Pre.ERS(ens, e0.Status.Canary.ReplicaSet); r != nil {
+				mark(r)
+				c.Antecedent("C05/fail-overtook-reconcile")
+			}
+		}
+	}
 	if c.Out.Ev.K != "R_eds" {
 		return
 	}
 	ns, name := split(c.Out.Ev.A)
+	if e0, e1 := c.Pre.EDS(ns, name), c.Out.Next.EDS(ns, name); e0 != nil && e1 != nil && e0.Status.ActiveReplicaSet != e1.Status.ActiveReplicaSet &&
+		e0.Status.ActiveReplicaSet != "" && e0.Spec.Strategy.Canary != nil && c.Pre.ERS(ns, e0.Status.ActiveReplicaSet) != nil {
+		if r := c.Pre.ERS(ns, e1.Status.ActiveReplicaSet); r != nil && c.Pre.Mem[failedKey(r)] != "" {
+			if v, ok := Annot(e0, "canary-valid"); !ok || v != r.Name {
+				c.Violate("C05", "C05/failed-lost: a canary that had been marked failed was promoted without validation (the mark did not survive)",
+					fmt.Sprintf("%s marked failed earlier in this history; Canary-Failed now %v", r.Name, ERSCondTrue(r, v1.ConditionTypeCanaryFailed)))
+			}
+		}
+	}
 	sig, msg, changed := CheckPromotion(c.Pre, c.Out.Next, ns, name)
 	if strings.HasPrefix(sig, "C05/adopt") && (hasFault(c.Out.Log) || c.Out.RR.Err != nil) {
 		sig = "" // the positive clause is only promised for a reconcile that succeeded
